@@ -1,7 +1,7 @@
 (* C01 — decoded fields match the canboat definition for every PGN and payload.
    Generic statements (any database record, any lookup tables, any payload); the instance for the
    tables regenerated from /repo is tools/templates/OblC01.v, compiled on every run. *)
-From NV Require Import Base Bits Defn PyNum Fields Dispatch Template Spec SpecProofs RangeProofs.
+From NV Require Import Base Bits Defn PyNum Fields Dispatch Template Spec SpecProofs SpecVar SpecVarProofs RangeProofs.
 
 (* Running the steps the generator is meant to emit for a database definition — statement by
    statement as the generated Python runs (running offset, registers, appends) — yields exactly the
@@ -55,6 +55,74 @@ Example C01_example :
        (match spec_decode [] [] (255 + 256 * 32767) ex_def with Ok m => Some m | _ => None end)
      = Some [VNone; VNone].
 Proof. split; [reflexivity|]. split; [eexists; split; [reflexivity|]; vm_compute; reflexivity | vm_compute; reflexivity]. Qed.
+
+(* ---- variable layout (SpecVar.v): fields after a STRING_LAU, fields without BitOffset, STRING_LZ, BINARY
+   with BitLengthField, INDIRECT_LOOKUP. spec_decode_var threads the bit position through the fields: a
+   field without BitOffset starts where the previous one ended; STRING_LAU occupies 8 * (its first byte)
+   bits, its text being the bytes after the two header bytes under the encoding the second byte names;
+   BINARY with BitLengthField has the number of bits the named field's decoded value announces;
+   INDIRECT_LOOKUP is looked up under (bits of the field named by its IndirectOrder, own bits). Running
+   the template's steps as the generated code runs them (running_bit_offset, bits_to_skip, the
+   'TEMP_VAL' placeholder patched later) yields exactly this, for EVERY payload and every definition of
+   the class var_def (which contains simple_def). ---- *)
+Theorem C01_var_sem : forall L LB LI p d td,
+  var_def d = true -> indirect_tables_ok LI d = true -> ddef_of_db d = Some td ->
+  run_ddef L LB LI p td = spec_decode_var L LB LI p d.
+Proof. exact run_template_is_spec_decode_var. Qed.
+Print Assumptions C01_var_sem.
+
+Theorem C01_var_code : forall code_dec L LB LI g d,
+  def_ok code_dec g d = true -> var_def d = true -> indirect_tables_ok LI d = true ->
+  exists cd, find_fname (fname_of g d) code_dec = Some cd /\
+             forall p, run_ddef L LB LI p cd = spec_decode_var L LB LI p d.
+Proof. exact def_ok_sound_var. Qed.
+Print Assumptions C01_var_code.
+
+(* nothing is weakened: on fixed-layout definitions the new specification is the old one *)
+Theorem C01_var_extends : forall L LB LI p d, simple_def d = true ->
+  var_def d = true /\ spec_decode_var L LB LI p d = spec_decode L LB p d.
+Proof. intros. split; [apply simple_is_var; assumption | apply spec_decode_var_simple; assumption]. Qed.
+Print Assumptions C01_var_extends.
+
+(* where the database gives a BitOffset and the offsets are consistent (each equals the sum of the sizes
+   before it — true of every definition of canboat.json, evaluated per run), specifying a field at its
+   BitOffset and specifying it at the running position are the same specification *)
+Theorem C01_var_offsets : forall L LB LI p all fs pos acc,
+  offsets_consistent pos fs = true ->
+  spec_fields_gen L LB LI p all true pos true acc fs = spec_fields_gen L LB LI p all false pos true acc fs.
+Proof. exact spec_offsets_agree. Qed.
+Print Assumptions C01_var_offsets.
+
+(* a STRING_LAU whose declared length stays within the payload is exactly: n = first byte, encoding =
+   second byte, text = the n-2 bytes that follow, size 8*n bits *)
+Theorem C01_var_lau : forall p pos, 0 <= pos -> p / 2 ^ pos <> 0 ->
+  let n := field_bits p pos 8 in
+  (Z.to_nat (n - 2) <= present p pos)%nat ->
+  spec_string_lau p pos =
+    do t <- lau_text (field_bits p (pos + 8) 8) (payload_bytes p (pos + 16) (Z.to_nat (n - 2)));
+    Ok (VText t, 8 * n).
+Proof. exact lau_declared. Qed.
+Print Assumptions C01_var_lau.
+
+(* non-vacuity: PGN 126998 (three STRING_LAU fields, only the first has a BitOffset) on the payload of
+   tests/test_decoder.py::test_STRING_LAU_parse: 07 01 "hello" | 0c 00 "wórld" in UTF-16 | nothing.
+   The specification yields 'hello', 'wórld' (UTF-8 bytes of the str) and None; so does the template. *)
+Definition ex_lau (ord id : Z) (off : option Z) : dbfield :=
+  mkF ord id id None None T_STRING_LAU None off false None None None None None None None None None None None None.
+Definition ex_var_def : dbdef :=
+  mkDb 126998 7 7 1 false None None [ex_lau 1 11 (Some 0); ex_lau 2 12 None; ex_lau 3 13 None].
+Definition ex_var_payload : Z := 0x64006c007200f30077000c6f6c6c65680107.
+Example C01_var_example :
+  var_def ex_var_def = true /\ simple_def ex_var_def = false /\
+  option_map (fun m => map fl_val (m_fields m))
+    (match spec_decode_var [] [] [] ex_var_payload ex_var_def with Ok m => Some m | _ => None end)
+  = Some [VText [104; 101; 108; 108; 111]; VText [119; 195; 179; 114; 108; 100]; VNone] /\
+  (exists td, ddef_of_db ex_var_def = Some td /\
+     run_ddef [] [] [] ex_var_payload td = spec_decode_var [] [] [] ex_var_payload ex_var_def).
+Proof.
+  split; [reflexivity|]. split; [reflexivity|]. split; [vm_compute; reflexivity|].
+  eexists; split; [reflexivity|]; vm_compute; reflexivity.
+Qed.
 
 (* ---- totality and correct rounding on in-range raw values (IEEE-754; proofs in RangeProofs.v) ----
    "payloads whose fields are inside the database range decode to a message instead of failing", and
